@@ -8,3 +8,7 @@ func init() {
 func init() {
 	props["C19"] = []Stream{{"strategy", genStrat}}
 }
+
+func init() {
+	props["C20"] = []Stream{{"dupsort", genDup}}
+}
